@@ -1,9 +1,11 @@
 #!/usr/bin/env python3
-"""Runs /repo's pinned test suite (guard off) and compares the set of passing tests with
-/root/.vp/BASELINE.json stable_pass. Exit 0 iff every baseline test still passes."""
+"""Runs the repository's pinned test suite (guard off) and compares the set of passing
+tests with /root/.vp/BASELINE.json stable_pass. Exit 0 iff every baseline test still
+passes. REPO_DIR selects another checkout (default /repo)."""
 import json, subprocess, sys, os
+repo = os.environ.get("REPO_DIR", "/repo")
 env = dict(os.environ, GOFLAGS="-mod=mod", GOPROXY="off", GOSUMDB="off", GOTOOLCHAIN="local")
-p = subprocess.run(["go", "test", "-json", "-vet=off", "-count=1", "-timeout", "25m", "./..."], cwd="/repo", env=env, capture_output=True, text=True)
+p = subprocess.run(["go", "test", "-json", "-vet=off", "-count=1", "-timeout", "25m", "./..."], cwd=repo, env=env, capture_output=True, text=True)
 passed = set()
 failed = set()
 for line in p.stdout.splitlines():
